@@ -4,8 +4,10 @@ import OpcuaVerif.Lemmas.C07
 C07 — any message survives chunking and channel security unchanged.
 
 Property theorems only (model `OpcuaVerif.Model.C07` + receive path `OpcuaVerif.Model.C09`, lemmas
-`OpcuaVerif.Lemmas.C07`).  The round trip is proved for channels that do not sign (`roundtrip_partial`);
-for signing channels the code does NOT have the property (recorded findings, counterexamples below).
+`OpcuaVerif.Lemmas.C07`).  The round trip is proved for MSG/CLO messages in every mode and any number of chunks (`roundtrip`),
+after three repairs of the code (padding stripped on symmetric receive, no padding in Sign mode, body
+budget); the pinned behaviour is kept as counterexample theorems.  OPN chunks exceed the negotiated
+size (recorded finding).
 -/
 namespace OpcuaVerif.C07
 open OpcuaVerif.C09
@@ -42,29 +44,37 @@ theorem mem_flatten_length : ∀ (l : List Bytes) (b : Bytes), b ∈ l → b.len
 theorem encode_chunks_inv (s : Sender) (t : MType) (seq req maxMsg maxChunk msgLen : Nat) (data : Bytes)
     (cs : List Bytes) (hmc : 0 < maxChunk)
     (h : encode s t seq req maxMsg maxChunk msgLen data = .chunks cs) :
-    ∃ mb, maxBody s t maxChunk = some mb ∧ overhead s t ≤ maxChunk ∧ mb = maxChunk - overhead s t ∧
-      0 < mb ∧ cs = mkChunks s t seq req 0 (split mb data.length data) := by
-  unfold encode at h
+    ∃ mb, maxBody s t maxChunk = some mb ∧ overhead s t ≤ maxChunk ∧ mb ≤ maxChunk - overhead s t ∧
+      0 < mb ∧ paddedSizeW SFixes.current s t mb ≤ maxChunk ∧
+      cs = mkChunks s t seq req 0 (split mb data.length data) := by
+  unfold encode encodeW at h
   by_cases h1 : maxMsg > 0 ∧ msgLen > maxMsg
   · rw [if_pos h1] at h; cases h
   · rw [if_neg h1, if_pos hmc] at h
-    cases hmb : maxBody s t maxChunk with
+    cases hmb : maxBodyW SFixes.current s t maxChunk with
     | none => rw [hmb] at h; cases h
     | some mb =>
       rw [hmb] at h
       (try simp only [] at h)
-      by_cases h2 : maxChunk < overhead s t
+      by_cases h2 : maxChunk < overheadW SFixes.current s t
       · rw [if_pos h2] at h; cases h
       · rw [if_neg h2] at h
         by_cases h3 : mb = 0
         · rw [if_pos h3] at h; cases h
         · rw [if_neg h3] at h
           cases h
-          refine ⟨mb, rfl, by omega, ?_, Nat.pos_of_ne_zero h3, rfl⟩
-          unfold maxBody at hmb
+          have hbud : SFixes.current.budget = true := rfl
+          unfold maxBodyW at hmb
           split at hmb
           · cases hmb
-          · cases hmb; rfl
+          · rename_i hge
+            (try rw [if_pos hbud] at hmb)
+            cases hmb
+            have hfit := shrink_fits (fun b => decide (paddedSizeW SFixes.current s t b ≤ maxChunk)) _ h3
+            refine ⟨_, ?_, by unfold overhead; omega, shrink_le _ _, Nat.pos_of_ne_zero h3,
+              of_decide_eq_true hfit, rfl⟩
+            unfold maxBody maxBodyW overhead
+            rw [if_neg hge, if_pos hbud]
 
 /-- **Header invariants** of what `Chunker::encode` produces with a chunk size limit: the number of
 chunks is ⌈|data| / maxBody⌉, chunk `k` carries sequence number `seq + k`, the one request id, the
@@ -78,7 +88,7 @@ theorem chunks_wellformed (s : Sender) (t : MType) (seq req maxMsg maxChunk msgL
       cs.length = (data.length + mb - 1) / mb ∧ cs.length = bodies.length ∧
       ∀ k b, bodies[k]? = some b →
         cs[k]? = some (newChunk s t (if k + 1 = bodies.length then .final else .intermediate) (seq + k) req b) := by
-  obtain ⟨mb, hmb, _, _, hpos, hcs⟩ := encode_chunks_inv s t seq req maxMsg maxChunk msgLen data cs hmc h
+  obtain ⟨mb, hmb, _, _, hpos, _, hcs⟩ := encode_chunks_inv s t seq req maxMsg maxChunk msgLen data cs hmc h
   subst hcs
   refine ⟨mb, split mb data.length data, hmb, hpos, split_flatten mb hpos _ _ (Nat.le_refl _),
     split_pieces mb hpos _ _, ?_, mkChunks_length _ _ _ _ _ _, ?_⟩
@@ -91,7 +101,7 @@ theorem chunks_wellformed (s : Sender) (t : MType) (seq req maxMsg maxChunk msgL
 theorem single_chunk (s : Sender) (t : MType) (seq req maxMsg msgLen : Nat) (data : Bytes) (cs : List Bytes)
     (h : encode s t seq req maxMsg 0 msgLen data = .chunks cs) :
     cs = [newChunk s t .final seq req data] := by
-  unfold encode at h
+  unfold encode encodeW at h
   split at h
   · cases h
   · simp at h; exact h.symm
@@ -107,37 +117,61 @@ theorem recvAll_id (C : Crypto) (ch : Chan) : ∀ cs : List Bytes,
     rw [ih (fun c' hc' => h c' (by simp [hc']))]
     rfl
 
-/-- **Round trip, partial**: on a channel that does not sign (policy None, or mode None/Invalid) every
-MSG/CLO message — any data, any chunk size limit, any number of chunks — passes the receiver
-unchanged chunk by chunk and reassembles to exactly the bytes that were sent.
-Missing for the full property: channels in Sign/SignAndEncrypt mode (false for more than one chunk,
-see `C07_counterexample_multichunk`) and OPN chunks. -/
-theorem roundtrip_partial (C : Crypto) (SC : SCrypto) (s : Sender) (hs : ¬ secured s) (t : MType)
-    (ht : t ≠ .opn) (ch : Chan) (hch : ¬ ch.secured) (seq req maxMsg maxChunk msgLen : Nat) (data : Bytes)
-    (hd : data ≠ []) (hlen : 24 + data.length < 4294967296) (cs : List Bytes)
+/-- the receiving end of a sender's channel: same policy and mode, keys derived -/
+def Matches (ch : Chan) (s : Sender) : Prop :=
+  ch.policy = s.policy ∧ ch.mode = s.mode ∧ ch.keys = true
+
+/-- every chunk `MessageChunk::new` makes comes back from the receiver exactly as it was made,
+whatever the mode -/
+theorem recv_chunk_id (SC : SCrypto) (C : Crypto) (laws : RTLaws SC C) (claws : CryptoLaws C)
+    (s : Sender) (t : MType) (ht : t ≠ .opn) (ch : Chan) (hch : Matches ch s) (f : Fin) (seq req : Nat)
+    (body : Bytes) (hn : 24 + body.length + 16 + 32 < 4294967296) :
+    recv C ch (applySecurity SC s t (newChunk s t f seq req body)) = (ch, .ok (newChunk s t f seq req body)) := by
+  by_cases hs : secured s
+  · exact recv_secured_id SC C laws claws s hs t ht ch hch.1 hch.2.1 hch.2.2 f seq req body hn
+  · have : applySecurity SC s t (newChunk s t f seq req body) = newChunk s t f seq req body := by
+      simp [applySecurity, applySecurityW, hs]
+    rw [this]
+    have hns : ¬ ch.secured := by
+      unfold Chan.secured; rw [hch.1, hch.2.1]; exact hs
+    exact recv_unsecured_id _ C ch hns s t ht f seq req body (by omega)
+
+theorem recvAll_map_id (C : Crypto) (ch : Chan) (g : Bytes → Bytes) : ∀ cs : List Bytes,
+    (∀ c ∈ cs, recv C ch (g c) = (ch, .ok c)) → recvAll C ch (cs.map g) = some cs := by
+  intro cs
+  induction cs with
+  | nil => intro _; rfl
+  | cons c cs ih =>
+    intro h
+    simp only [List.map_cons, recvAll, h c (by simp)]
+    rw [ih (fun c' hc' => h c' (by simp [hc']))]
+    rfl
+
+/-- **Round trip.**  For every policy, every mode (None, Sign, SignAndEncrypt), every chunk size
+limit and every MSG/CLO message — any data, any number of chunks — the chunks the sender produces,
+once secured (`apply_security`) and passed through the receiver's verification and decryption
+(`verify_and_remove_security`), come back as exactly the chunks `Chunker::encode` made and
+reassemble (`Chunker::decode`) to exactly the bytes that were sent.  Hypotheses: the primitives'
+laws (`mac` verifies, AES decrypts what it encrypted, lengths), the receiver's channel matches the
+sender's, sizes below 2^32.  (OPN chunks: checked by correspondence only.) -/
+theorem roundtrip (SC : SCrypto) (C : Crypto) (laws : RTLaws SC C) (claws : CryptoLaws C) (s : Sender)
+    (t : MType) (ht : t ≠ .opn) (ch : Chan) (hch : Matches ch s) (seq req maxMsg maxChunk msgLen : Nat)
+    (data : Bytes) (hd : data ≠ []) (hlen : 24 + data.length + 16 + 32 < 4294967296) (cs : List Bytes)
     (h : encode s t seq req maxMsg maxChunk msgLen data = .chunks cs) :
     recvAll C ch (cs.map (applySecurity SC s t)) = some cs ∧ reassemble ch cs = some data := by
-  have happ : cs.map (applySecurity SC s t) = cs := by
-    have : applySecurity SC s t = id := by funext c; simp [applySecurity, hs]
-    rw [this, List.map_id]
-  rw [happ]
   by_cases hmc : 0 < maxChunk
-  · obtain ⟨mb, bodies, hmb, hpos, hflat, hpieces, _, hlen2, hget⟩ :=
-      chunks_wellformed s t seq req maxMsg maxChunk msgLen data cs hmc h
-    obtain ⟨mb', hmb', _, _, _, hcs'⟩ := encode_chunks_inv s t seq req maxMsg maxChunk msgLen data cs hmc h
-    have hcs : cs = mkChunks s t seq req 0 (split mb data.length data) := by
-      rw [hmb] at hmb'; cases hmb'; exact hcs'
+  · obtain ⟨mb, _, _, _, hpos, _, hcs⟩ := encode_chunks_inv s t seq req maxMsg maxChunk msgLen data cs hmc h
     have hbl : ∀ b ∈ split mb data.length data, b.length ≤ data.length := by
       intro b hb
       have h1 : (split mb data.length data).flatten = data := split_flatten mb hpos _ _ (Nat.le_refl _)
       have : b.length ≤ (split mb data.length data).flatten.length := mem_flatten_length _ _ hb
       rwa [h1] at this
     constructor
-    · apply recvAll_id
+    · apply recvAll_map_id
       intro c hc
       rw [hcs] at hc
       obtain ⟨f, q, b, hb, rfl⟩ := mkChunks_mem s t seq req _ 0 c hc
-      exact recv_unsecured_id _ C ch hch s t ht f q req b (by have := hbl b hb; omega)
+      exact recv_chunk_id SC C laws claws s t ht ch hch f q req b (by have := hbl b hb; omega)
     · rw [hcs, reassemble_mkChunks ch s t ht seq req _ 0, split_flatten mb hpos _ _ (Nat.le_refl _)]
       intro hnil
       have h1 := split_flatten mb hpos data.length data (Nat.le_refl _)
@@ -147,110 +181,111 @@ theorem roundtrip_partial (C : Crypto) (SC : SCrypto) (s : Sender) (hs : ¬ secu
     have hc := single_chunk s t seq req maxMsg msgLen data cs h
     subst hc
     constructor
-    · apply recvAll_id
+    · apply recvAll_map_id
       intro c hc
       simp at hc; subst hc
-      exact recv_unsecured_id _ C ch hch s t ht .final seq req data hlen
+      exact recv_chunk_id SC C laws claws s t ht ch hch .final seq req data hlen
     · simp [reassemble, bodyOf_newChunk ch s t ht, Fin.byte]
 
-/-- **Size bound, channels that do not sign**: no chunk exceeds the negotiated size. -/
-theorem chunk_size_bound_unsecured (SC : SCrypto) (s : Sender) (hs : ¬ secured s) (t : MType)
+/-- **Size bound**: no MSG/CLO chunk on the wire exceeds the negotiated chunk size, in any mode. -/
+theorem chunk_size_bound (SC : SCrypto) (laws : SLaws SC) (s : Sender) (t : MType) (ht : t ≠ .opn)
     (seq req maxMsg maxChunk msgLen : Nat) (data : Bytes) (cs : List Bytes) (hmc : 0 < maxChunk)
     (h : encode s t seq req maxMsg maxChunk msgLen data = .chunks cs) :
     ∀ c ∈ cs, (applySecurity SC s t c).length ≤ maxChunk := by
   intro c hc
-  obtain ⟨mb, bodies, hmb, _, _, hpieces, _, hlen2, hget⟩ :=
-    chunks_wellformed s t seq req maxMsg maxChunk msgLen data cs hmc h
-  have hov : overhead s t ≤ maxChunk ∧ mb = maxChunk - overhead s t := by
-    obtain ⟨mb', hmb', h1, h2, _, _⟩ := encode_chunks_inv s t seq req maxMsg maxChunk msgLen data cs hmc h
-    rw [hmb] at hmb'; cases hmb'; exact ⟨h1, h2⟩
-  obtain ⟨k, hk⟩ := List.getElem?_of_mem hc
-  have hkl : k < bodies.length := by
-    have := (List.getElem?_eq_some_iff.mp hk).1; omega
-  have hb : bodies[k]? = some bodies[k] := List.getElem?_eq_getElem hkl
-  have := hget k _ hb
-  rw [hk] at this; cases this
-  simp only [applySecurity, hs, if_false, newChunk_length]
-  have := (hpieces _ (List.getElem_mem hkl)).2
-  have : 12 + (secHdr s t).length + 8 ≤ overhead s t := by unfold overhead; omega
-  omega
+  obtain ⟨mb, hmb, hov, hle, hpos, hfit, hcs⟩ :=
+    encode_chunks_inv s t seq req maxMsg maxChunk msgLen data cs hmc h
+  rw [hcs] at hc
+  obtain ⟨f, q, b, hb, rfl⟩ := mkChunks_mem s t seq req _ 0 c hc
+  have hbm := (split_pieces mb hpos _ _ b hb).2
+  have hsh := secHdr_sym_length s t ht
+  have hl := newChunk_length s t f q req b
+  by_cases hs : secured s
+  · rw [sym_secured_length SC laws s t ht hs _ (by rw [hl]; omega), hl, hsh]
+    have hmono := paddedSize_mono s t ht hs b.length mb hbm
+    unfold paddedSizeW at hmono hfit
+    rw [hsh, sigSize_sym s t ht] at hmono hfit
+    have e : 12 + 4 + 8 + b.length - 24 = b.length := by omega
+    rw [e]
+    unfold paddingSize
+    omega
+  · have : applySecurity SC s t (newChunk s t f q req b) = newChunk s t f q req b := by
+      simp [applySecurity, applySecurityW, hs]
+    rw [this, hl]
+    unfold overhead overheadW at hov hle
+    omega
 
-/-- **Size bound, signing channels, partial**: a secured MSG/CLO chunk exceeds the negotiated size by
-less than one AES block (`≤ maxChunk + 15`).  Missing for the property: `≤ maxChunk` itself, which is
-false (`C07_counterexample_size`). -/
-theorem chunk_size_bound_sym_partial (SC : SCrypto) (laws : SLaws SC) (s : Sender) (hs : secured s)
-    (t : MType) (ht : t ≠ .opn) (seq req maxMsg maxChunk msgLen : Nat) (data : Bytes) (cs : List Bytes)
-    (hmc : 0 < maxChunk) (h : encode s t seq req maxMsg maxChunk msgLen data = .chunks cs) :
-    ∀ c ∈ cs, (applySecurity SC s t c).length ≤ maxChunk + 15 := by
-  intro c hc
-  obtain ⟨mb, bodies, hmb, _, _, hpieces, _, hlen2, hget⟩ :=
-    chunks_wellformed s t seq req maxMsg maxChunk msgLen data cs hmc h
-  have hov : overhead s t ≤ maxChunk ∧ mb = maxChunk - overhead s t := by
-    obtain ⟨mb', hmb', h1, h2, _, _⟩ := encode_chunks_inv s t seq req maxMsg maxChunk msgLen data cs hmc h
-    rw [hmb] at hmb'; cases hmb'; exact ⟨h1, h2⟩
-  obtain ⟨k, hk⟩ := List.getElem?_of_mem hc
-  have hkl : k < bodies.length := by
-    have := (List.getElem?_eq_some_iff.mp hk).1; omega
-  have hb : bodies[k]? = some bodies[k] := List.getElem?_eq_getElem hkl
-  have := hget k _ hb
-  rw [hk] at this; cases this
-  have hsh : (secHdr s t).length = 4 := by cases t <;> simp_all [secHdr, u32le]
-  have hsig : sigSize s t = s.policy.symSig := by cases t <;> simp_all [sigSize]
-  have hl := newChunk_length s t (if k + 1 = bodies.length then Fin.final else Fin.intermediate) (seq + k) req bodies[k]
-  rw [sym_secured_length SC laws s t ht hs _ (by rw [hl]; omega), hl]
-  have hb2 := (hpieces _ (List.getElem_mem hkl)).2
-  have hp1 := (sym_block_aligned s t ht hs 1).2.1
-  have hp2 := (sym_block_aligned s t ht hs (12 + (secHdr s t).length + 8 + bodies[k].length - 24)).2.2
-  unfold overhead at hov
-  omega
-
-/-! ### Non-vacuity and the recorded findings -/
+/-! ### Non-vacuity, the repaired defects, the recorded finding -/
 
 def senderNone : Sender :=
   { policy := .none, mode := .none, isClient := true, chanId := 1, tokenId := 2, cert := [],
     ownKey := 128, remoteKey := 128, thumb := List.replicate 20 1 }
 
 def senderB128Sign : Sender := { senderNone with policy := .b128, mode := .sign }
+def senderB128SE : Sender := { senderNone with policy := .b128, mode := .signEncrypt }
 
 example : ¬ secured senderNone := by decide
-example : secured senderB128Sign := by decide
+example : secured senderB128SE := by decide
+example : Matches (receiverOf senderB128SE) senderB128SE := by unfold Matches; decide
 
-/-- The negotiated size is exceeded: Basic128Rsa15/Sign, limit 8196: the body budget is 8149 bytes
-(it assumes the padding of a 1-byte body, 3) and a chunk with a full body needs 15 padding bytes:
-24 + 8149 + 15 + 20 = 8208 > 8196 (observed on the real code: `sec=[8208,…]`). -/
-theorem C07_counterexample_size :
-    maxBody senderB128Sign .msg 8196 = some 8149 ∧
-    24 + 8149 + (paddingSize senderB128Sign .msg 8149).1 + senderB128Sign.policy.symSig = 8208 := by
-  decide
+/-- the toy primitives satisfy the laws of `roundtrip` -/
+example : RTLaws (toySC 128 128) (toyRC 128) where
+  macLen := by intro p d; simp [toySC]
+  aesLen := by intro d; simp [toySC]
+  macOk := by intro p d; simp [toyRC]
+  aesInv := by intro d; simp [toySC, toyRC]
 
-/-- the whole pipeline on pre-split bodies: secure every chunk, receive every chunk, reassemble -/
-def pipeline (s : Sender) (t : MType) (bodies : List Bytes) : Option Bytes :=
-  (recvAll (toyRC s.ownKey) (receiverOf s)
-    ((mkChunks s t 10 3 0 bodies).map (applySecurity (toySC s.remoteKey s.ownKey) s t))).bind
-    (reassemble (receiverOf s))
+/-- the whole pipeline on pre-split bodies, with selectable repairs: secure every chunk, receive
+every chunk, reassemble -/
+def pipelineW (F : Fixes) (X : SFixes) (s : Sender) (t : MType) (bodies : List Bytes) : Option Bytes :=
+  let rec go : Chan → List Bytes → Option (List Bytes)
+    | _, [] => some []
+    | ch, w :: ws =>
+      match recvWith F (toyRC s.ownKey) ch w with
+      | (ch', .ok d) => (go ch' ws).map (d :: ·)
+      | _ => none
+  (go (receiverOf s) ((mkChunks s t 10 3 0 bodies).map
+    (applySecurityW X (toySC s.remoteKey s.ownKey) s t))).bind (reassemble (receiverOf s))
 
-/-- Multi-chunk + signing does not round-trip: the receiver strips the signature but keeps the
-padding, so the padding of every chunk but the last ends up INSIDE the reassembled body.  Small-scale
-instance of the pipeline (data `1..8` in two chunks with bodies of 5 and 3 bytes, toy primitives):
-what is reassembled is the first body, its 15 padding bytes, the second body and its padding byte —
-24 bytes of which the 8 bytes sent are not a prefix. -/
+/-- **Repaired (receiver)**: the pinned receiver stripped the signature of an encrypted MSG chunk but
+kept its padding: data `1..8` sent in two chunks (bodies of 5 and 3 bytes) reassembled with the
+15 and 1 padding bytes inside — 24 bytes of which the data is not a prefix. -/
 theorem C07_counterexample_multichunk :
-    pipeline senderB128Sign .msg [[1, 2, 3, 4, 5], [6, 7, 8]] =
+    pipelineW { Fixes.current with symPadding := false } SFixes.current senderB128SE .msg
+        [[1, 2, 3, 4, 5], [6, 7, 8]] =
       some ([1, 2, 3, 4, 5] ++ List.replicate 15 14 ++ [6, 7, 8] ++ [0]) ∧
     ([1, 2, 3, 4, 5, 6, 7, 8] : Bytes).isPrefixOf
       ([1, 2, 3, 4, 5] ++ List.replicate 15 14 ++ [6, 7, 8] ++ [0]) = false := by
   decide
 
-/-- the same pipeline with a single chunk: the data comes back followed by the chunk's padding
-(which the message decoder ignores); without signing nothing is added -/
-example : pipeline senderB128Sign .msg [[1, 2, 3, 4, 5, 6, 7, 8]] =
-    some ([1, 2, 3, 4, 5, 6, 7, 8] ++ List.replicate 12 11) := by decide
-
-example : pipeline senderNone .msg [[1, 2, 3, 4, 5], [6, 7, 8]] = some [1, 2, 3, 4, 5, 6, 7, 8] := by
+/-- **Repaired (sender)**: the pinned sender padded MSG chunks in Sign mode too; no receiver may strip
+padding from an unencrypted chunk, so the same message failed in Sign mode as well. -/
+theorem C07_counterexample_sign_padding :
+    pipelineW Fixes.current SFixes.pinned senderB128Sign .msg [[1, 2, 3, 4, 5], [6, 7, 8]] =
+      some ([1, 2, 3, 4, 5] ++ List.replicate 15 14 ++ [6, 7, 8] ++ [0]) := by
   decide
 
-/-- OPN chunks: the RSA expansion (`cipher = ⌈plain / (k − overhead)⌉ · k`) is not budgeted at all:
-with 1024-bit keys and Basic128Rsa15 a full 8196-byte budget becomes 117-byte blocks of 128 bytes. -/
+/-- the current code returns the data, in both modes and without security -/
+example : pipelineW Fixes.current SFixes.current senderB128SE .msg [[1, 2, 3, 4, 5], [6, 7, 8]] =
+    some [1, 2, 3, 4, 5, 6, 7, 8] := by decide
+example : pipelineW Fixes.current SFixes.current senderB128Sign .msg [[1, 2, 3, 4, 5], [6, 7, 8]] =
+    some [1, 2, 3, 4, 5, 6, 7, 8] := by decide
+example : pipelineW Fixes.current SFixes.current senderNone .msg [[1, 2, 3, 4, 5], [6, 7, 8]] =
+    some [1, 2, 3, 4, 5, 6, 7, 8] := by decide
+
+/-- **Repaired (budget)**: Basic128Rsa15/SignAndEncrypt, limit 8196: the pinned budget was 8149 body
+bytes (it assumed the 3 padding bytes of a 1-byte body) and a chunk with a full body needs 15:
+24 + 8149 + 15 + 20 = 8208 > 8196 (observed on the real code: `sec=[8208,…]`).  The current budget
+is 8147 bytes, which makes exactly 8192. -/
+theorem C07_counterexample_size :
+    maxBodyW SFixes.pinned senderB128SE .msg 8196 = some 8149 ∧
+    paddedSizeW SFixes.pinned senderB128SE .msg 8149 = 8208 ∧
+    paddedSizeW SFixes.current senderB128SE .msg 8147 = 8192 ∧
+    paddedSizeW SFixes.current senderB128SE .msg 8148 = 8208 := by
+  decide
+
+/-- **Recorded**: OPN chunks — the RSA expansion (`cipher = ⌈plain / (k − overhead)⌉ · k`) is not
+budgeted at all: with 1024-bit keys and Basic128Rsa15, 7020 plain bytes become 60 blocks of 128. -/
 theorem C07_counterexample_opn_expansion :
     let ptbs := 128 - Policy.b128.rsaOverhead
     ptbs = 117 ∧ (7020 / ptbs) * 128 = 7680 ∧ 7680 - 7020 = 660 := by
